@@ -182,7 +182,47 @@ func (p *Program) CallGraph() *callgraph.Graph {
 }
 
 // Func resolves "pkgsuffix.Name" or "pkgsuffix.(Recv).Name" / "pkgsuffix.(*Recv).Name" to an SSA function.
+// Func resolves "pkg.f" or "pkg.(T).m". When the exact form does not exist it also tries the other one (a method
+// turned into a plain function of the same name, or the reverse), provided the result is unique in the package.
 func (p *Program) Func(spec string) *ssa.Function {
+	if fn := p.funcExact(spec); fn != nil {
+		return fn
+	}
+	i := strings.LastIndex(spec, ".")
+	if i < 0 {
+		return nil
+	}
+	left, name := spec[:i], spec[i+1:]
+	pkgSuffix := left
+	if j := strings.Index(left, ".("); j >= 0 {
+		pkgSuffix = left[:j]
+		return p.funcExact(pkgSuffix + "." + name)
+	}
+	pkg := p.SSAPackage(pkgSuffix)
+	if pkg == nil {
+		return nil
+	}
+	var found *ssa.Function
+	for _, m := range pkg.Members {
+		t, ok := m.(*ssa.Type)
+		if !ok {
+			continue
+		}
+		for _, typ := range []types.Type{t.Type(), types.NewPointer(t.Type())} {
+			if sel := p.SSA.MethodSets.MethodSet(typ).Lookup(pkg.Pkg, name); sel != nil {
+				if f := p.SSA.MethodValue(sel); f != nil && f.Synthetic == "" {
+					if found != nil && found != f {
+						return nil
+					}
+					found = f
+				}
+			}
+		}
+	}
+	return found
+}
+
+func (p *Program) funcExact(spec string) *ssa.Function {
 	i := strings.LastIndex(spec, ".")
 	if i < 0 {
 		return nil
